@@ -4,6 +4,7 @@ import Txtpp.Lemmas.OutputConfTxtpp
 import Txtpp.Lemmas.ByteLines
 import Txtpp.Lemmas.ByteEndings
 import Txtpp.Lemmas.CrFs
+import Txtpp.Lemmas.CmdCrVocab
 /-!
 # Property C12 — generated files use one line ending: that of the source's first line
 -/
@@ -127,5 +128,14 @@ theorem build_pass_output_bytes_one_ending (cfg : Cfg) (hb : cfg.mode = .build) 
 /-- bytes and text agree on "CR only before LF" (both directions, through the UTF-8 codec) -/
 theorem cr_clean_bytes_iff_text (s : List Char) : crB s.utf8Encode.data.toList = true ↔ crDom s = true :=
   ⟨crDom_of_bytes s, bytes_of_crDom s⟩
+
+/-- the hypothesis on commands is satisfiable by a purely static condition: a vocabulary whose commands
+print CR-clean literals and contents of files of the tree (no path-dependent output) prints CR-clean text
+over a CR-clean tree - so the whole-run theorem needs nothing but facts about the initial tree and the
+command table -/
+theorem vocabulary_commands_are_cr_clean (cfg : Cfg) (hv : VocabCr cfg) : CmdCr cfg := cmdCr_of_vocab cfg hv
+
+theorem run_keeps_tree_cr_clean_static (cfg : Cfg) (hv : VocabCr cfg) (fs : FS) (inputs : List (List Char)) (h : CrFS fs) :
+    CrFS (runProject cfg fs inputs).2 := runProject_crfs cfg (cmdCr_of_vocab cfg hv) fs inputs h
 
 end C12
